@@ -87,11 +87,15 @@ theorem dispatch_entryInv (c : Core) (hn : Str) (attrsD : List (Str × Str)) (c'
     · split at hd
       · injection hd with hd; injection hd with h1 _; rw [← h1]; exact h
       · split at hd
-        · cases hd
-        · simp only at hd
-          split at hd
-          · injection hd with hd; injection hd with h1 _; rw [← h1]; exact h
-          · injection hd with hd; injection hd with h1 _; rw [← h1]; exact setContext_entryInv _ _ _ h
+        · rw [(startContent_ok _ _ _ _ _ _ _ hd).1]; exact fun hi => h hi
+        · split at hd
+          · rw [(startContent_ok _ _ _ _ _ _ _ hd).1]; exact fun hi => h hi
+          · split at hd
+            · cases hd
+            · simp only at hd
+              split at hd
+              · injection hd with hd; injection hd with h1 _; rw [← h1]; exact h
+              · injection hd with hd; injection hd with h1 _; rw [← h1]; exact setContext_entryInv _ _ _ h
 
 theorem pop_entryInv (o : Ops) (s : MSt) (el : Str) (h : EntryInv s.c) : EntryInv (pop o s el).c := by
   unfold pop
@@ -112,10 +116,40 @@ theorem pop_entryInv (o : Ops) (s : MSt) (el : Str) (h : EntryInv s.c) : EntryIn
             · exact h
             · exact h
 
+theorem popFull_entryInv (o : Ops) (s : MSt) (el : Str) (h : EntryInv s.c) : EntryInv (popFull o s el).2.c := by
+  unfold popFull
+  split
+  · exact h
+  · split
+    · exact h
+    · simp only
+      split
+      · exact h
+      · split
+        · exact h
+        · split
+          · exact h
+          · split
+            · rename_i hin
+              intro _
+              simp only
+              split
+              · exact updHead_ne_nil _ _ (updHead_ne_nil _ _ (h hin))
+              · exact updHead_ne_nil _ _ (h hin)
+            · split
+              · exact h
+              · exact h
+
+theorem popContent_entryInv (o : Ops) (s : MSt) (k : Str) (h : EntryInv s.c) : EntryInv (popContent o s k).2.c :=
+  fun hi => popFull_entryInv o s k h hi
+
 theorem step_entryInv (o : Ops) (s : MSt) (e : MEv) (s' : MSt) (h : EntryInv s.c) (hs : mstep o s e = .ok s') : EntryInv s'.c := by
   cases e with
   | start tag attrs =>
     simp only [mstep, startTag] at hs
+    split at hs
+    · cases hs
+    simp only [startTag0] at hs
     have hp := startPre_entryInv o s.c tag attrs h
     cases hd : dispatchCore (startPre o s.c tag attrs).1 (handlerName (startPre o s.c tag attrs).1 tag) (startPre o s.c tag attrs).2 with
     | error w => rw [hd] at hs; simp [applyDispatch] at hs
@@ -128,6 +162,18 @@ theorem step_entryInv (o : Ops) (s : MSt) (e : MEv) (s' : MSt) (h : EntryInv s.c
       | some el => simp only [applyDispatch, Outcome.ok.injEq] at hs; rw [← hs]; exact this
   | stop tag =>
     simp only [mstep, endTag] at hs
+    split at hs
+    · obtain ⟨k, top, rest, _, _, _, hs'⟩ := endContent_ok o s s' _ hs
+      rw [hs']
+      have ha := afterTitle_frame k (popContent o s k)
+      have hp := popContent_entryInv o s k h
+      intro hi
+      simp only [endFinish] at hi ⊢
+      rw [ha.1]; rw [ha.2.1] at hi
+      exact hp hi
+    split at hs
+    · cases hs
+    simp only [endTag0] at hs
     split at hs
     · injection hs with hs; rw [← hs]; exact h
     · split at hs
@@ -173,16 +219,18 @@ handler-less elements — it yields a state: `pop` on an empty or mismatched sta
 
 def Modelled (c : Core) : MEv → Prop
   | .start tag attrs =>
+      c.incontent = false ∧
       ∀ o : Ops, (dispatchCore (startPre o c tag attrs).1 (handlerName (startPre o c tag attrs).1 tag) (startPre o c tag attrs).2).isOk = true
   | .stop tag => let h := handlerName c tag
+      c.incontent = false ∧ contentEndKey h = none ∧
       (h == S "channel" || h == S "feed" || h == S "item" || h == S "entry" || (dateKey h).isSome || !hasEnd h) = true
   | _ => True
 
 theorem step_total (o : Ops) (s : MSt) (e : MEv) (hm : Modelled s.c e) : ∃ s', mstep o s e = .ok s' := by
   cases e with
   | start tag attrs =>
-    simp only [mstep, startTag]
-    have := hm o
+    simp only [mstep, startTag, hm.1, Bool.false_eq_true, ↓reduceIte, startTag0]
+    have := hm.2 o
     cases hd : dispatchCore (startPre o s.c tag attrs).1 (handlerName (startPre o s.c tag attrs).1 tag) (startPre o s.c tag attrs).2 with
     | error w => rw [hd] at this; simp [Except.isOk, Except.toBool] at this
     | ok r =>
@@ -191,8 +239,9 @@ theorem step_total (o : Ops) (s : MSt) (e : MEv) (hm : Modelled s.c e) : ∃ s',
       | none => exact ⟨_, rfl⟩
       | some el => exact ⟨_, rfl⟩
   | stop tag =>
-    simp only [mstep, endTag]
     simp only [Modelled] at hm
+    obtain ⟨hm1, hm2, hm⟩ := hm
+    simp only [mstep, endTag, hm1, hm2, Bool.false_eq_true, ↓reduceIte, Option.isSome_none, endTag0]
     by_cases c1 : (handlerName s.c tag == S "channel" || handlerName s.c tag == S "feed") = true
     · simp only [c1, ↓reduceIte]; exact ⟨_, rfl⟩
     · simp only [c1, Bool.false_eq_true, ↓reduceIte]
